@@ -25,6 +25,7 @@ fn fmt_map(m: &[(usize, usize)]) -> String {
 }
 
 pub fn run(key: &str, a: &[String], out: &mut Out) {
+    out.begin(key, a);
     match key {
         "C17.setnv" => {
             let b = Bdd::from_string(&a[0]);
